@@ -57,6 +57,8 @@ pub struct Assertion {
     pub field: Option<String>,
     pub expected: u64,
     pub msg: String,
+    /// attributes on the assertion item (an unconditional check has none)
+    pub attrs: Vec<String>,
 }
 
 #[derive(Debug, Clone)]
@@ -215,7 +217,7 @@ fn read_assertion(c: &syn::ItemConst) -> Result<Option<Assertion>, String> {
                 struct_name: parts[0].clone(),
                 field: Some(parts[1].clone()),
                 expected,
-                msg,
+                msg, attrs: vec![]
             }))
         }
         Val::Call { path, args } if args.is_empty() => {
@@ -225,7 +227,7 @@ fn read_assertion(c: &syn::ItemConst) -> Result<Option<Assertion>, String> {
                     struct_name: inner.to_string(),
                     field: None,
                     expected,
-                    msg,
+                    msg, attrs: vec![]
                 }))
             } else {
                 Err(format!("assert! probes `{}`", path.join("::")))
@@ -266,7 +268,8 @@ pub fn read_scope(items: &[syn::Item]) -> Result<Scope, String> {
             syn::Item::Const(c) => {
                 if c.ident == "_" {
                     match read_assertion(c)? {
-                        Some(a) => {
+                        Some(mut a) => {
+                            a.attrs = c.attrs.iter().map(|x| tokens_string(x)).collect();
                             s.order.push(format!("assert:{}:{}", a.struct_name, a.field.clone().unwrap_or_default()));
                             s.assertions.push(a)
                         }
